@@ -3,6 +3,7 @@
 import datetime
 import typing
 
+from json_to_models.registry import ModelFieldsEquals
 from json_to_models.dynamic_typing import (DDict, DList, DOptional, DTuple, DUnion, ModelMeta, ModelPtr, Null,
                                            StringLiteral, StringSerializable, Unknown)
 from json_to_models.models.base import prepare_label
@@ -91,9 +92,10 @@ def normalise(tp, classes):
     return tp
 
 
-def check_case(inputs, cmps, job, registry, check_types):
+def check_case(inputs, cmps, job, registry, check_types, fold_guard=False):
     reg, text = real.run_library(inputs, registry, cmps, job)
-    if job["layout"] == "nested" and not common.is_tree(reg):
+    shared = job["layout"] == "nested" and not common.is_tree(reg)
+    if shared and not job.get("sharedOk"):
         return None, "nested-non-tree"
     ns = real.load_module(text)
     classes = {c.__name__: (c, chain) for q, c, chain in real.collect_classes(ns)}
@@ -111,6 +113,14 @@ def check_case(inputs, cmps, job, registry, check_types):
         table = real.field_table(cls, fw)
         hs = real.hints(cls, ns, chain) if check_types else {}
         expected_names = {}
+        from ..gen import fold as _fold
+        folded = {}
+        for key, t in m.type.items():
+            # two keys of one (merged) class that coincide after the harness's own case/punctuation folding are outside the
+            # documented key domain (finding F1); decided without the code under test
+            if fold_guard and _fold(key) in folded:
+                return None, "keys-fold-together"
+            folded[_fold(key)] = key
         for key, t in m.type.items():
             if fw in ("pydantic", "sqlmodel") and (t is Null or t is Unknown):
                 continue
@@ -172,6 +182,19 @@ def run_falsifier(ctx, check_types):
             inputs = [("Root", [_gen.gen_name_clash(rng)])]
             job["omitDefaults"] = rng.random() < 0.6
             job["convertUnicode"] = True if job["omitDefaults"] else rng.random() < 0.7
+        if i >= len(focus) and i % 12 == 1:
+            # the nested layout with a child used by two nested classes of one root: the child is hoisted into the root and
+            # referred to by an absolute 'Root.Child' path, under root names the generator has to convert
+            from .. import gen as _gen
+            name = rng.choice(_gen.ROOT_NAMES + ["Route-2", "2fast", "Données", "my root"])
+            pt = lambda j: {"x": j, "y": j + .5}
+            inputs = [(name, [{"left": {"point": pt(1), "a": 1}, "right": {"point": pt(2), "b": "x"},
+                               "deep": {"inner": {"point": pt(3), "c": [1]}, "d": 1.5}}])]
+            if rng.random() < 0.4:
+                inputs.append((name, [{"left": {"point": pt(4), "a": 2}, "right": {"point": pt(5), "b": "y"}, "deep": {"inner": {"point": pt(6), "c": []}, "d": 2}}]))
+            cmps = [ModelFieldsEquals()]
+            job.update({"layout": "nested", "sharedOk": True})
+            job.pop("renderFirst", None)
         if i >= len(focus) and i % 12 == 3:
             # renamed keys holding characters on which str.splitlines splits, inside a nested class (the nested layout
             # re-indents the child's code)
@@ -190,7 +213,7 @@ def run_falsifier(ctx, check_types):
             inputs = [("Root", [{k1: 7, "name": "x", "sub": {k2: 3, "v": 1.5}}, {k1: 8, "name": "y", "sub": {k2: 4, "v": 2.5}}])]
             job["fw"] = rng.choice(["sqlmodel", "sqlmodel", "pydantic"])
         try:
-            hit, skip = check_case(inputs, cmps, job, registry, check_types)
+            hit, skip = check_case(inputs, cmps, job, registry, check_types, fold_guard=True)
         except (ZeroDivisionError, stages.TooCostly):
             ctx.count("skip:zero-division")
             continue
